@@ -440,8 +440,12 @@ int main(int argc, char **argv) {
     std::vector<float> ts(frames); float t = 0; for (int f = 0; f < frames; f++) { t += (float)r.range(1, 50) / 16.f; ts[f] = t; }
     bool ts_first = r.chance(50); if (ts_first) anim.SetTimestamps(ts);
     int tracks = (int)r.below(4);
-    std::vector<std::vector<float>> data; std::vector<int> ncs, ids;
-    for (int k = 0; k < tracks; k++) { int nc = (int)r.range(1, r.chance(20) ? 16 : 4); std::vector<float> d((size_t)frames * nc); for (auto &x : d) x = (float)r.range(-4000, 4000) / 64.f; int id = anim.AddKeyframes(DT_FLOAT32, nc, d); data.push_back(d); ncs.push_back(nc); ids.push_back(id); }
+    std::vector<std::vector<uint8_t>> data; std::vector<int> ncs, ids; std::vector<DataType> dts;   // raw bytes of every track as given
+    for (int k = 0; k < tracks; k++) { int nc = (int)r.range(1, r.chance(20) ? 16 : 4); int tk = (int)r.below(10); int id = -1; std::vector<uint8_t> raw; DataType dt = DT_FLOAT32;
+      auto fill = [&](auto tag, DataType d, int64_t lo, int64_t hi) { typedef decltype(tag) T; std::vector<T> v((size_t)frames * nc); for (auto &x : v) x = (T)r.range(lo, hi); id = anim.AddKeyframes(d, nc, v); raw.assign((const uint8_t *)v.data(), (const uint8_t *)v.data() + v.size() * sizeof(T)); dt = d; };
+      if (tk < 6) { std::vector<float> d((size_t)frames * nc); for (auto &x : d) x = (float)r.range(-4000, 4000) / 64.f; id = anim.AddKeyframes(DT_FLOAT32, nc, d); raw.assign((const uint8_t *)d.data(), (const uint8_t *)d.data() + d.size() * 4); }
+      else if (tk == 6) fill((int32_t)0, DT_INT32, -100000, 100000); else if (tk == 7) fill((uint32_t)0, DT_UINT32, 0, 70000); else if (tk == 8) fill((int16_t)0, DT_INT16, -3000, 3000); else fill((uint8_t)0, DT_UINT8, 0, 255);
+      data.push_back(raw); ncs.push_back(nc); ids.push_back(id); dts.push_back(dt); }
     if (!ts_first) { if (!anim.SetTimestamps(ts)) continue; }
     EncoderOptions opt = EncoderOptions::CreateDefaultOptions(); int speed = (int)r.below(11); opt.SetSpeed(speed, speed);
     std::vector<int> qs(anim.num_attributes(), 0);
@@ -449,7 +453,7 @@ int main(int argc, char **argv) {
     EncoderBuffer eb; KeyframeAnimationEncoder enc; Status s = enc.EncodeKeyframeAnimation(anim, opt, &eb);
     // the model sees it as a point cloud: describe it that way
     Geo g; g.np = frames; g.speed = speed; g.builtin = true;
-    for (int a = 0; a < anim.num_attributes(); a++) { const PointAttribute *pa = anim.attribute(a); AttSpec as; as.type = pa->attribute_type(); as.dt = pa->data_type(); as.nc = pa->num_components(); as.norm = pa->normalized(); as.uid = pa->unique_id(); as.kind = qs[a] ? 'Q' : 'G'; as.q = qs[a]; as.pred = 1;
+    for (int a = 0; a < anim.num_attributes(); a++) { const PointAttribute *pa = anim.attribute(a); AttSpec as; as.type = pa->attribute_type(); as.dt = pa->data_type(); as.nc = pa->num_components(); as.norm = pa->normalized(); as.uid = pa->unique_id(); as.kind = dt_int(pa->data_type()) ? 'I' : (qs[a] ? 'Q' : 'G'); as.q = as.kind == 'Q' ? qs[a] : 0; as.pred = 1;
       std::vector<uint8_t> buf(pa->byte_stride()); for (PointIndex p(0); p < anim.num_points(); ++p) { pa->GetMappedValue(p, buf.data()); as.rows.insert(as.rows.end(), buf.begin(), buf.end()); } g.atts.push_back(as); }
     const std::string gt = geo_text(g); const std::string ih = s.ok() ? hex(eb.data(), eb.size()) : std::string("fail");
     o.c("pcseq " + gt + " " + ih, ih);
@@ -463,10 +467,11 @@ int main(int argc, char **argv) {
     if (!out.timestamps() || out.timestamps()->num_components() != 1) o.fail("C20 timestamps lost: " + gt);
     // the ids the API handed out are the keys of the per-attribute options: a track (or the timestamps, id 0) for which no
     // quantization was requested UNDER ITS OWN ID must come back bit-exact, whatever order the animation was built in
-    auto exact = [&](const PointAttribute *pa, const std::vector<float> &want, int nc) { if (!pa || (int)pa->num_components() != nc || pa->data_type() != DT_FLOAT32) return false;
-      std::vector<float> v(nc); for (int f = 0; f < frames; f++) { pa->GetMappedValue(PointIndex(f), v.data()); if (memcmp(v.data(), &want[(size_t)f * nc], sizeof(float) * nc) != 0) return false; } return true; };
-    if ((int)qs.size() > 0 && qs[0] == 0 && !exact(out.timestamps(), ts, 1)) o.fail("C20 timestamps (no quantization requested for id 0) are not bit-exact: " + gt + (ts_first ? " timestamps-first" : " keyframes-first"));
-    for (size_t k = 0; k < ids.size(); k++) if (ids[k] >= 0 && ids[k] < (int)qs.size() && qs[ids[k]] == 0 && !exact(out.keyframes(ids[k]), data[k], ncs[k]))
+    auto exact = [&](const PointAttribute *pa, const std::vector<uint8_t> &want, int nc, DataType dt) { if (!pa || (int)pa->num_components() != nc || pa->data_type() != dt) return false;
+      const size_t st = (size_t)nc * dt_len(dt); std::vector<uint8_t> v(st); for (int f = 0; f < frames; f++) { pa->GetMappedValue(PointIndex(f), v.data()); if (memcmp(v.data(), &want[(size_t)f * st], st) != 0) return false; } return true; };
+    std::vector<uint8_t> tsraw((const uint8_t *)ts.data(), (const uint8_t *)ts.data() + ts.size() * 4);
+    if ((int)qs.size() > 0 && qs[0] == 0 && !exact(out.timestamps(), tsraw, 1, DT_FLOAT32)) o.fail("C20 timestamps (no quantization requested for id 0) are not bit-exact: " + gt + (ts_first ? " timestamps-first" : " keyframes-first"));
+    for (size_t k = 0; k < ids.size(); k++) if (ids[k] >= 0 && ids[k] < (int)qs.size() && (qs[ids[k]] == 0 || dts[k] != DT_FLOAT32) && !exact(out.keyframes(ids[k]), data[k], ncs[k], dts[k]))
       o.fail("C20 track " + S(ids[k]) + " (no quantization requested for its id) is not bit-exact: " + gt + (ts_first ? " timestamps-first" : " keyframes-first"));
   }
   fprintf(stderr, "h_seq: %ld cases (%ld encode failures, %ld decode cases), %ld direct failures\n", o.cases, enc_fail, dec_cases, o.fails);
